@@ -850,6 +850,7 @@ pub fn generate(workload: Workload, subject: SubjectKind, seed: u64) -> (Config,
                 push: if class == Class::Collection { 20 } else { 0 },
                 wake: 4,
                 stale: 2,
+                freeze: 3,
                 ..Weights::default()
             };
             n_ops = r.range(10, 80) as usize;
